@@ -277,11 +277,67 @@ def size_sweep(ctx, b):
             line, json.dumps(ex[line - 1])[:200], json.dumps(ex[line - 2])[:200] if line > 1 else ""), {"kind": "trace", "trace": ex, "line": line})
 
 
+def compress_sweep(ctx, b):
+    """readers over blocks whose compression ratio sweeps 1.5:1 .. several hundred to one, in every algorithm (the decompressors
+    size their output buffer from a guess and grow it: each growth step is a path with its own allocations)"""
+    rng = ctx.rng
+    d = ctx.sub("ratios")
+    tmp = os.path.join(d, "tmp")
+    os.makedirs(tmp, exist_ok=True)
+    L = ["scratch " + d, "clock 1000"]
+    paths = []
+    ratios = (1.5, 3.5, 4.5, 7, 9, 15, 17, 33, 70, 400) if ctx.quick() else (1.5, 2.5, 3.5, 3.9, 4.1, 4.5, 6, 7, 7.9, 8.1, 9, 12, 15, 15.9, 16.1, 17, 31, 33, 63, 65, 130, 400, 2000)
+    for ci, comp in enumerate(gen.COMPS):
+        if comp == "none":
+            continue
+        pth = os.path.join(d, "c%d.mtbl" % ci)
+        L.append("w_init 9 %s %s default 1024 2 -1 0" % (pth, comp))
+        for n, r in enumerate(ratios):
+            head = rng.choice([300, 1500, 6000])
+            run = int((r - 1) * head)
+            L.append("w_add 9 %s G%dx%d+C%02xx%d" % (shapes.hexs(b"k%03d" % n), 50000 + n, head, rng.randrange(256), run))
+        L.append("w_close 9")
+        paths.append(pth)
+    L.append("obs " + tmp)
+
+    def o(line):
+        L.append(line)
+        L.append("obs " + tmp)
+    for pth in paths:
+        o("r_init 1 %s %d 0" % (pth, rng.randint(0, 1)))
+        o("it_iter 1 r:1")
+        o("it_drain 1")
+        o("it_seek 1 " + shapes.hexs(b"k003"))
+        o("it_next 1 2")
+        o("it_destroy 1")
+        o(gen.open_line(2, "r:1", ("get", b"k%03d" % (len(ratios) - 1), b"")))
+        o("it_drain 2")
+        o("it_destroy 2")
+        o("r_destroy 1")
+    L += ["obs " + tmp, "leakcheck", "---"]
+    evs, rc, err = core.run_drv(b, "\n".join(L) + "\n", d, "ratios", fork=True, timeout=900,
+                                env={"ASAN_OPTIONS": "detect_leaks=1:exitcode=99:allocator_may_return_null=1", "LSAN_OPTIONS": "exitcode=0:print_suppressions=0"})
+    recs = core.convert_events(evs)
+    out = []
+    for ex in core.split_execs(recs):
+        ext = [e for e in ex if e["e"] == "Exit"]
+        if ext and (ext[0]["code"] != 0 or ext[0]["sig"] != 0):
+            core.report(ctx, "readers over highly compressible blocks ended abnormally (code %s signal %s)" % (ext[0]["code"], ext[0]["sig"]),
+                        {"kind": "abnormal", "why": "code %s signal %s" % (ext[0]["code"], ext[0]["sig"])})
+            continue
+        out += [ex[0], {"e": "Judge", "props": ["C18", "C01"]}] + ex[1:]
+        ctx.add("compression_ratio_blocks", (len(gen.COMPS) - 1) * len(ratios))
+    for ex, line in core.validate_batch(ctx, out, "ratios"):
+        core.report(ctx, "resource ledger or content not explained at trace line %d (compression ratio sweep): %s (previous call: %s)" % (
+            line, json.dumps(ex[line - 1])[:200], json.dumps(ex[line - 2])[:200] if line > 1 else ""), {"kind": "trace", "trace": ex, "line": line})
+
+
 def run(ctx):
     b = build.build("asan")
     rng = ctx.rng
     tlc_models(ctx)
     size_sweep(ctx, b)
+    compress_sweep(ctx, b)
     inflight(ctx)
     hs = tlc_behaviours(ctx, 160 if ctx.quick() else 5000)
     hs += focused_histories(rng, 120 if ctx.quick() else 3000)
